@@ -47,6 +47,8 @@ let bytes_of_hex (s : string) : Model.z list =
     go (n - 1) []
   end
 
+let ecu_state : Model.ecu ref = ref (Model.ecu_init Model.Z0)
+
 let split_nonempty c s = if s = "" then [] else String.split_on_char c s
 
 let () =
@@ -54,6 +56,15 @@ let () =
     while true do
       let line = input_line stdin in
       match String.split_on_char '|' line with
+      (* a stateful reference ECU for the C12 harness: e0|blk| resets, e1||frame steps, e2|| dumps the state *)
+      | ["e0"; ints; _] ->
+        ecu_state := Model.ecu_init (z_of_string ints); print_string "0"; print_newline ()
+      | ["e1"; _; blob] ->
+        let (e', rep) = Model.ecu_step !ecu_state (bytes_of_hex blob) in
+        ecu_state := e';
+        print_string (String.concat "," (List.map string_of_z rep)); print_newline ()
+      | ["e2"; _; _] ->
+        print_string (String.concat "," (List.map string_of_z (Model.enc_ecu !ecu_state))); print_newline ()
       | [e; ints; blobs] ->
         let res = Model.run_case (z_of_string e) (List.map z_of_string (split_nonempty ',' ints))
                     (List.map bytes_of_hex (split_nonempty ',' blobs)) in
